@@ -20,7 +20,7 @@ tvars == <<lvars, l, postOf, cbal, obs>>
 
 Trace == ndJsonDeserialize(TraceFile)
 
-NoObs == [h |-> 0, liab |-> <<>>, rew |-> <<>>, time |-> 0, rel |-> <<>>, app |-> <<>>, pays |-> <<>>, unpaid |-> 0, sur |-> <<>>, surdrop |-> FALSE]
+NoObs == [h |-> 0, liab |-> <<>>, rew |-> <<>>, time |-> 0, rel |-> <<>>, app |-> <<>>, pays |-> <<>>, unpaid |-> 0, sur |-> <<>>, surdrop |-> FALSE, collok |-> TRUE]
 
 TInit == LInit /\ l = 1 /\ postOf = <<>> /\ cbal = <<>> /\ obs = NoObs /\ TLCSet(1, 1)
 
@@ -106,6 +106,17 @@ UnpaidEpochs(old, new) ==
      ELSE LET i == CHOOSE k \in S : TRUE  n == new[i]  o == OldRew(old, n.c)
           IN (n.last - o.last) - n.paid
 
+\* C11 "a credited reward can be collected exactly once, minting exactly the credited amount": per reward contract and token,
+\* what is still to be collected plus what the contract asked the token contract to mint in this momentum equals what was to be
+\* collected before plus what was credited since - a collection takes the whole deposit out, once, and asks for exactly that
+CollectionsBalance(old, new) ==
+  \A i \in 1..Len(new) :
+    LET n == new[i] IN
+    (n.known /\ \E k \in 1..Len(old) : old[k].c = n.c) =>
+      LET o == old[CHOOSE k \in 1..Len(old) : old[k].c = n.c] IN
+      /\ BAdd(n.depZnn, n.mintZnn) = BAdd(o.depZnn, BSub(n.sumZnn, o.sumZnn))
+      /\ BAdd(n.depQsr, n.mintQsr) = BAdd(o.depQsr, BSub(n.sumQsr, o.sumQsr))
+
 \* C10, sharper than Backed: what a lock-keeping contract holds beyond what it owes never shrinks. A genesis surplus would
 \* otherwise hide an entry that was created without the funds behind it (a fusion recorded in QSR for a deposit in another
 \* token). Only for the contracts whose balance moves with their entries alone (E.strict lists them: plasma, stake, HTLC).
@@ -124,7 +135,8 @@ TMom == /\ IsEvent("Mom")
         /\ RewardStep(obs.rew, E.rew)
         /\ obs' = [h |-> E.h, liab |-> E.liab, rew |-> E.rew, time |-> E.time, rel |-> E.rel, app |-> E.app, pays |-> E.pays,
                    unpaid |-> UnpaidEpochs(obs.rew, E.rew),
-                   sur |-> SurplusOf(E.liab, cbal'), surdrop |-> SurplusDrops(obs.sur, SurplusOf(E.liab, cbal'))]
+                   sur |-> SurplusOf(E.liab, cbal'), surdrop |-> SurplusDrops(obs.sur, SurplusOf(E.liab, cbal')),
+                   collok |-> CollectionsBalance(obs.rew, E.rew)]
 
 TNext == TReset \/ TGenesis \/ TSend \/ TRecv \/ TMisRecv \/ TCRecv \/ TMom
 
@@ -151,6 +163,7 @@ ReleaseOK(r) ==
 ReleasedRight == \A i \in 1..Len(obs.rel) : ReleaseOK(obs.rel[i])
 
 EveryConsumedEpochPaid == obs.unpaid = 0
+CollectedRight == obs.collok
 SurplusKept == ~obs.surdrop
 
 HighWater == TLCSet(1, IF TLCGet(1) > l THEN TLCGet(1) ELSE l)
